@@ -159,6 +159,12 @@ func (x *Exec) oblige(fr *Frame, st *State, kind, target string, pos token.Pos, 
 		}
 		return
 	}
+	if goal.Op == "=>" && goal.Args[1].Op == "and" && (kind == "post" || kind == "inv-step" || kind == "inv-entry" || kind == "pre") && len(goal.Args[1].Args) <= 40 {
+		for i, g := range goal.Args[1].Args {
+			x.oblige(fr, st, kind, target, pos, Implies(goal.Args[0], g), fmt.Sprintf("%s /%d", text, i))
+		}
+		return
+	}
 	if goal == True || st.infeasible() {
 		return
 	}
